@@ -45,8 +45,8 @@ func errSources(v ssa.Value) []*ssa.Call {
 // ErrNil matches "err != nil" / "err == nil" tests of the error result of a
 // call selected by m; the fact is "the call succeeded".
 func ErrNil(name string, m CallMatch) Guard {
-	return Guard{Name: "ErrNil(" + name + ")", Match: func(i *ssa.If) (int, bool) {
-		bo, ok := i.Cond.(*ssa.BinOp)
+	return Guard{Name: "ErrNil(" + name + ")", Match: func(cond ssa.Value) (int, bool) {
+		bo, ok := cond.(*ssa.BinOp)
 		if !ok || (bo.Op != token.NEQ && bo.Op != token.EQL) {
 			return 0, false
 		}
@@ -78,13 +78,13 @@ func ErrNil(name string, m CallMatch) Guard {
 // BoolCall matches a branch on the boolean result of a call selected by m;
 // the fact is "the call returned true".
 func BoolCall(name string, m CallMatch) Guard {
-	return Guard{Name: "True(" + name + ")", Match: func(i *ssa.If) (int, bool) {
-		c, ok := i.Cond.(*ssa.Call)
+	return Guard{Name: "True(" + name + ")", Match: func(cond ssa.Value) (int, bool) {
+		c, ok := cond.(*ssa.Call)
 		if ok && m(c) {
 			return 0, true
 		}
 		// comparisons of the bool result with a constant
-		if bo, ok := i.Cond.(*ssa.BinOp); ok && (bo.Op == token.EQL || bo.Op == token.NEQ) {
+		if bo, ok := cond.(*ssa.BinOp); ok && (bo.Op == token.EQL || bo.Op == token.NEQ) {
 			if c, ok := bo.X.(*ssa.Call); ok && m(c) {
 				if bv, ok := ConstBool(bo.Y); ok {
 					if (bo.Op == token.EQL) == bv {
@@ -108,7 +108,7 @@ var bytesEqFuncs = map[string]bool{
 // BytesEq matches a branch on the outcome of a byte comparison whose operands
 // satisfy (ma, mb) in either order; the fact is "the slices are equal".
 func BytesEq(name string, ma, mb func(Path) bool) Guard {
-	return Guard{Name: "BytesEq(" + name + ")", Match: func(i *ssa.If) (int, bool) {
+	return Guard{Name: "BytesEq(" + name + ")", Match: func(cond ssa.Value) (int, bool) {
 		check := func(c *ssa.Call) bool {
 			if !bytesEqFuncs[CalleeName(c.Common())] || len(c.Call.Args) != 2 {
 				return false
@@ -116,7 +116,7 @@ func BytesEq(name string, ma, mb func(Path) bool) Guard {
 			a, b := PathOf(c.Call.Args[0]), PathOf(c.Call.Args[1])
 			return (ma(a) && mb(b)) || (ma(b) && mb(a))
 		}
-		switch c := i.Cond.(type) {
+		switch c := cond.(type) {
 		case *ssa.Call:
 			// bytes.Equal / hmac.Equal used directly
 			if check(c) && CalleeName(c.Common()) != "crypto/subtle.ConstantTimeCompare" {
@@ -152,8 +152,8 @@ func BytesEq(name string, ma, mb func(Path) bool) Guard {
 // wanted fact holds on the true edge (+1), on the false edge (-1) or is not
 // expressed by this test (0).
 func LenRel(name string, m func(Path) bool, holds func(op token.Token, k int64) int) Guard {
-	return Guard{Name: "Len(" + name + ")", Match: func(i *ssa.If) (int, bool) {
-		bo, ok := i.Cond.(*ssa.BinOp)
+	return Guard{Name: "Len(" + name + ")", Match: func(cond ssa.Value) (int, bool) {
+		bo, ok := cond.(*ssa.BinOp)
 		if !ok {
 			return 0, false
 		}
@@ -231,11 +231,11 @@ func LenEquals(name string, m func(Path) bool, want int64) Guard {
 // FlagSet matches a branch on a boolean field load whose path satisfies m;
 // the fact is "the flag is true".
 func FlagSet(name string, m func(Path) bool) Guard {
-	return Guard{Name: "Flag(" + name + ")", Match: func(i *ssa.If) (int, bool) {
-		if _, ok := i.Cond.(*ssa.UnOp); !ok {
+	return Guard{Name: "Flag(" + name + ")", Match: func(cond ssa.Value) (int, bool) {
+		if _, ok := cond.(*ssa.UnOp); !ok {
 			return 0, false
 		}
-		if m(PathOf(i.Cond)) {
+		if m(PathOf(cond)) {
 			return 0, true
 		}
 		return 0, false
@@ -245,8 +245,8 @@ func FlagSet(name string, m func(Path) bool) Guard {
 // FlagClear is the fact "the flag is false".
 func FlagClear(name string, m func(Path) bool) Guard {
 	g := FlagSet(name, m)
-	return Guard{Name: "NotFlag(" + name + ")", Match: func(i *ssa.If) (int, bool) {
-		s, ok := g.Match(i)
+	return Guard{Name: "NotFlag(" + name + ")", Match: func(cond ssa.Value) (int, bool) {
+		s, ok := g.Match(cond)
 		return 1 - s, ok
 	}}
 }
@@ -254,14 +254,14 @@ func FlagClear(name string, m func(Path) bool) Guard {
 // NilTest matches "v == nil"/"v != nil" (and nodeenrollment.IsNil(v)) where
 // v's path satisfies m; the fact is "v is nil" when wantNil, else "v non-nil".
 func NilTest(name string, m func(Path) bool, wantNil bool) Guard {
-	return Guard{Name: "Nil(" + name + ")", Match: func(i *ssa.If) (int, bool) {
+	return Guard{Name: "Nil(" + name + ")", Match: func(cond ssa.Value) (int, bool) {
 		flip := func(s int) int {
 			if wantNil {
 				return s
 			}
 			return 1 - s
 		}
-		switch c := i.Cond.(type) {
+		switch c := cond.(type) {
 		case *ssa.BinOp:
 			if c.Op != token.EQL && c.Op != token.NEQ {
 				return 0, false
